@@ -45,3 +45,22 @@ Lemma K_pinned_refuted :
   let r2 := krow (Some (AStr 5)) None in
   K_pinned kT kspec r1 = K_pinned kT kspec r2 /\ K kT kspec r1 <> K kT kspec r2.
 Proof. cbv zeta. split; [vm_compute; reflexivity|vm_compute; discriminate]. Qed.
+
+(** A schema index over a column the client does not monitor (recorded finding
+    C05 class 31): every cached row holds the default value; the rows are
+    created without the duplicate check, as Populate does; the single-valued
+    schema entry holds the last row only, a scan finds both. *)
+Definition pspec : ispec := mkISpec [(1%N, None)] true.
+Definition two_projected : cres rc :=
+  match rc_create kT [pspec] false (rc_empty [pspec]) 10%N (krow None None) with
+  | COk c => rc_create kT [pspec] false c 11%N (krow None None)
+  | e => e
+  end.
+
+Lemma schema_index_projected_refuted :
+  exists c, two_projected = COk c /\
+    (match rc_idx c with m :: _ => i_get m (K kT pspec (krow None None)) | [] => ∅ end) = {[11%N]} /\
+    scan kT pspec (rc_rows c) (K kT pspec (krow None None)) = {[10%N; 11%N]}.
+Proof.
+  eexists. split; [vm_compute; reflexivity|]. split; apply leibniz_equiv; intros u; vm_compute; tauto.
+Qed.
